@@ -15,6 +15,7 @@ from .speceval import SpecEvalMixin, SpecEnv
 from .expr import ExprMixin
 from .stmt import StmtMixin
 from .calls import CallMixin
+from . import models  # noqa: registers trusted models
 
 
 class FunctionResult:
@@ -32,6 +33,8 @@ class FunctionResult:
         self.gen_seconds = 0.0
         self.input_terms = []            # names of input constants, for model extraction
         self.param_terms = {}
+        self.observe = []
+        self.refine_facts = []
 
 
 class Exec(HeapMixin, SpecEvalMixin, ExprMixin, StmtMixin, CallMixin):
@@ -59,6 +62,8 @@ class Exec(HeapMixin, SpecEvalMixin, ExprMixin, StmtMixin, CallMixin):
         self.entry_state = None
         self.entry_names = {}
         self._class_ids = {}
+        self.refine_facts = []
+        self.refine_seen = set()
 
     # ---- obligations -----------------------------------------------------------------------------
     def oblige(self, st: State, goal: T, kind: str, clause: str, meta=None) -> State:
@@ -111,7 +116,7 @@ class Exec(HeapMixin, SpecEvalMixin, ExprMixin, StmtMixin, CallMixin):
         res = FunctionResult(c.qualname)
         self.reset(c.qualname)
         try:
-            fi = self.prog.func(c.qualname)
+            fi = self.prog.func(c.qualname.split("#")[0])
         except KeyError as e:
             res.unsupported = f"function not found in source: {e}"
             res.decls = self.decls
@@ -126,9 +131,88 @@ class Exec(HeapMixin, SpecEvalMixin, ExprMixin, StmtMixin, CallMixin):
         res.inlined = set(self.inlined)
         res.used_contracts = set(self.used_contracts)
         res.dispatch_sites = dict(self.dispatch_sites)
+        res.refine_facts = list(self.refine_facts)
         res.decls = self.decls
         res.gen_seconds = time.time() - t0
         return res
+
+    def verify_lemma(self, lem: dict) -> FunctionResult:
+        t0 = time.time()
+        name = "lemma:" + lem["name"]
+        res = FunctionResult(name)
+        self.reset(name)
+        try:
+            st = self.initial_state(None)
+            names = {n: self.fresh_value(st, k, "p_" + n) for n, k in lem["vars"].items()}
+            res.observe = self.observe(st, names)
+            for cl in lem["assumes"]:
+                st = st.assume(self.spec_bool(SpecEnv(st, names), cl.expr))
+            self.apply_hints(st, lem["hints"], SpecEnv(st, names))
+            res.covers.append(Obligation(name, "assumptions-satisfiable", "cover", st.pc, TRUE, ()))
+            for cl in lem["shows"]:
+                g = self.spec_bool(SpecEnv(st, names), cl.expr)
+                self.oblige(st, g, "lemma", cl.label)
+            res.paths = 1
+        except Unsupported as u:
+            res.unsupported = str(u)
+        res.obligations = self.obligations
+        res.decls = self.decls
+        res.refine_facts = list(self.refine_facts)
+        res.gen_seconds = time.time() - t0
+        return res
+
+    def observe(self, st: State, params, depth=3):
+        """Terms whose model values describe the inputs (for native replay): (path, term, kind-name)."""
+        out = []
+
+        def walk(path, v, d):
+            if isinstance(v, (VInt, VBool, VBytes, VFloat, VAny)):
+                out.append((path, v.t, type(v).__name__))
+            elif isinstance(v, VStr):
+                out.append((path, v.t, "VStr"))
+                from .models import _ufun
+                from .smt import STR as _S
+                for pred in ("is_ipv4", "is_ipv6", "encodable", "canon_ipv4", "canon_ipv6"):
+                    out.append((f"{path}#{pred}", _ufun(self, pred, [_S], BOOL, v.t), "VBool"))
+                out.append((f"{path}#contains_dot", _ufun(self, "str_contains", [_S, _S], BOOL, v.t,
+                                                          self.decls.str_lit(".")), "VBool"))
+                out.append((f"{path}#contains_colon", _ufun(self, "str_contains", [_S, _S], BOOL, v.t,
+                                                            self.decls.str_lit(":")), "VBool"))
+            elif isinstance(v, VOpt):
+                out.append((path + "?none", v.isnone, "VBool"))
+                walk(path, v.inner, d)
+            elif isinstance(v, VTuple):
+                for i, it in enumerate(v.items):
+                    walk(f"{path}[{i}]", it, d)
+            elif isinstance(v, (VList, VDeque)):
+                out.append((path + "@ref", v.t, "ref"))
+                try:
+                    out.append((path + "@items", self.seq_items(st, v), "seq:" + repr(v.elem)))
+                except Exception:
+                    pass
+            elif isinstance(v, VRef):
+                out.append((path + "@ref", v.t, "ref:" + v.cls))
+                out.append((path + "@type", self.type_of(st, v.t), "type"))
+                if d <= 0:
+                    return
+                seen = set()
+                for n in self.class_names_mro(v.cls):
+                    m = self.reg.models.get(n)
+                    if not m:
+                        continue
+                    for f in list(m.fields) + list(m.dynamic):
+                        if f in seen:
+                            continue
+                        seen.add(f)
+                        try:
+                            if f in m.dynamic:
+                                out.append((f"{path}.{f}?has", self.has_dyn(st, v, f), "VBool"))
+                            walk(f"{path}.{f}", self.read_field(st, v, f), d - 1)
+                        except Unsupported:
+                            pass
+        for n, v in params.items():
+            walk(n, v, depth)
+        return out
 
     def initial_state(self, fi) -> State:
         st = State()
@@ -153,20 +237,24 @@ class Exec(HeapMixin, SpecEvalMixin, ExprMixin, StmtMixin, CallMixin):
         # bind python parameters
         a = fi.node.args
         pnames = [p.arg for p in a.posonlyargs + a.args + a.kwonlyargs]
-        bound = self.bind_params(st, fi, [], {n: params[n] for n in pnames if n in params}, "entry") \
-            if not (a.vararg or a.kwarg) else {n: params[n] for n in pnames if n in params}
+        given = {n: params[n] for n in pnames if n in params}
+        if fi.kind == "classmethod":
+            given[pnames[0]] = VPy("class", fi.cls)
+        if a.vararg or a.kwarg:
+            bound = dict(given)
+        else:
+            bound = self.bind_params(st, fi, [], given, "entry")
         if a.vararg is not None:
             bound[a.vararg.arg] = params.get(a.vararg.arg, VTuple([]))
         if a.kwarg is not None:
             bound[a.kwarg.arg] = VPy("kwargs", {})
-        if fi.kind == "classmethod":
-            bound[pnames[0]] = VPy("class", fi.cls)
         # assume the precondition
         env = SpecEnv(st, dict(params))
         for cl in c.requires + c.assume_pre:
             st = st.assume(self.spec_bool(SpecEnv(st, dict(params)), cl.expr))
         self.apply_hints(st, c.entry_facts, SpecEnv(st, dict(params)))
         entry = st.copy()
+        res.observe = self.observe(entry, params)
         self.entry_state = entry
         self.entry_names = dict(params)
         # vacuity: the precondition must be satisfiable
